@@ -40,7 +40,7 @@ ArchCalls ==
 \* with up to three layers (needed for guards that must look at EVERY earlier layer, not only the previous one)
 C3 == <<"r", "c">>
 Arch3Calls(n) ==
-    IF n % 2 = 0 THEN {[m |-> "layer", name |-> nm] : nm \in {"L1", "L2", "L3"}}
+    IF n % 2 = 0 THEN {[m |-> "layer", name |-> nm] : nm \in {"L1", "L2", "L3", "l1"}}      \* "l1": differs from "L1" in case only
     ELSE {[m |-> "containing_modules", names |-> <<x>>, list |-> l] : x \in {A, B, C3}, l \in BOOLEAN}
              \cup {[m |-> "have_modules_with_names_matching", regex |-> <<"regex">>],
                    [m |-> "containing_modules", names |-> <<>>, list |-> TRUE]}
